@@ -521,16 +521,21 @@ structure Recipe where
   corrArg : Nat := 0
   eol : Nat := 0
   payload : Bytes
+  /-- OTHER KEYS OF THE STREAM DICTIONARY: selector of the entries `otherKeys` adds (0 = none; optional sixth field of <mta>) -/
+  keys : Nat := 0
 
 def Recipe.mta (r : Recipe) : String :=
-  s!"{r.shape};{showChain r.chain};{r.corrL}.{r.corrOp}.{r.corrArg};{r.eol};{hexOfBytes r.payload}"
+  s!"{r.shape};{showChain r.chain};{r.corrL}.{r.corrOp}.{r.corrArg};{r.eol};{hexOfBytes r.payload}" ++
+    (if r.keys == 0 then "" else s!";{r.keys}")
 
 def Recipe.parse (s : String) : Option Recipe :=
-  match s.splitOn ";" with
-  | [sh, ch, co, eol, p] =>
+  let five (sh ch co eol p : String) (keys : Nat) : Option Recipe :=
     match sh.toNat?, parseChain ch, (co.splitOn ".").map (·.toNat?.getD 0), eol.toNat?, bytesOfHex p with
-    | some sh, some ch, [l, o, a], some eol, some p => some ⟨sh, ch, l, o, a, eol, p⟩
+    | some sh, some ch, [l, o, a], some eol, some p => some ⟨sh, ch, l, o, a, eol, p, keys⟩
     | _, _, _, _, _ => none
+  match s.splitOn ";" with
+  | [sh, ch, co, eol, p] => five sh ch co eol p 0
+  | [sh, ch, co, eol, p, ks] => ks.toNat?.bind fun k => if k == 0 then none else five sh ch co eol p k
   | _ => none
 
 /-- the content (layers applied innermost first; the corruption hits the output of its layer), and
@@ -593,12 +598,62 @@ def Recipe.wanted (r : Recipe) : Bytes :=
   | _ => r.payload
 
 /-- entries that are not filter-related: what must survive the pruning -/
-def Recipe.extrasL (r : Recipe) (len : Nat) : Dict :=
+def Recipe.extrasBase (r : Recipe) (len : Nat) : Dict :=
   match r.shape % 3 with
   | 0 => [(strBytes "Length", .int len)]
   | 1 => [(strBytes "Length", .int len), (strBytes "Subtype", name! "Image"), (strBytes "Type", name! "XObject")]
   | _ => [(strBytes "DL", .int r.payload.length), (strBytes "FilterX", name! "FlateDecode"), (strBytes "Length", .int len),
           (strBytes "Resources", .dict [(strBytes "Filter", name! "Nested")]), (strBytes "W", .arr [.int 1, .int 2, .int 1])]
+
+/-! ### OTHER KEYS OF THE STREAM DICTIONARY (spec side).  ISO 32000-1 7.3.8.2, Table 5: the filter entries of a stream
+    dictionary are /Filter and /DecodeParms - nothing else.  /F there is the FILE SPECIFICATION of an external stream
+    (with /FFilter, /FDecodeParms for the external file's own filters), /DL the decoded length; the abbreviations F, DP,
+    Fl, AHx, A85, ... of Table 93 belong to INLINE IMAGES (8.9.7), which are not stream objects.  So every entry below must
+    come out of decode_stream with its value, whatever the filter chain and however /Filter and /DecodeParms are
+    spelled. -/
+
+/-- keys near the two filter-entry names -/
+def nearKeys : List Bytes :=
+  (["F", "DP", "Fl", "AHx", "A85", "D", "FFilter", "FDecodeParms", "Filters", "Filte", "filter", "decodeparms",
+    "DecodeParm", "FilterX", "FILTER", "DecodeParams", "DecodeParmsX", "L", "DL", "Type", "Subtype", "Params", "N",
+    "First"].map strBytes) ++
+  -- the empty name; `Filter` / `DecodeParms` followed by a NUL or a space; a NUL in front
+  [[], strBytes "Filter" ++ [0], strBytes "Filter" ++ [32], strBytes "DecodeParms" ++ [0], 0 :: strBytes "Filter"]
+
+/-- values of every kind, among them ones that look like filter names and parameter dictionaries -/
+def nearVals : List Obj :=
+  [name! "FlateDecode", .int 42, .arr [name! "ASCIIHexDecode", name! "FlateDecode"],
+   .dict [(strBytes "Columns", .int 4), (strBytes "Predictor", .int 12)], .str (strBytes "FlateDecode"), .ref 7 0,
+   .null, .bool true, .other, .arr [.dict [(strBytes "Predictor", .int 12)], .null],
+   .dict [(strBytes "DP", .dict []), (strBytes "F", name! "FlateDecode"), (strBytes "Filter", name! "ASCII85Decode")], name! "Fl"]
+
+def otherKeysCount : Nat := (nearKeys.length + 3) * nearVals.length
+
+/-- the entries selector `ks` stands for: one near key with one value (every pair), or - three more columns - ALL the
+    near keys at once, the six inline-image abbreviations, /F and /DP together, the values rotating -/
+def otherKeys (ks : Nat) : Dict :=
+  if ks == 0 then [] else
+  let nK := nearKeys.length
+  let nV := nearVals.length
+  let k := (ks - 1) % (nK + 3)
+  let v := (ks - 1) / (nK + 3)
+  let val (i : Nat) : Obj := nearVals[i % nV]?.getD .null
+  let keyed (ks : List Bytes) : Dict := (ks.zip (List.range ks.length)).map fun (key, i) => (key, val (i + v))
+  if k < nK then [(nearKeys[k]?.getD [], val v)]
+  else if k == nK then keyed nearKeys
+  else if k == nK + 1 then keyed (nearKeys.take 6)
+  else [(strBytes "F", val v), (strBytes "DP", val (v + 3))]
+
+/-- entries that are not filter-related: what must survive the pruning (a key of `otherKeys` that the shape's entries
+    also use - Type, Subtype, DL, FilterX - takes the value given here: `insertKey`) -/
+def Recipe.extrasL (r : Recipe) (len : Nat) : Dict := r.extrasBase len ++ otherKeys r.keys
+
+/-- can the recipe's dictionary be written as TEXT and read back entry for entry (view twins)?  Not with a key that is
+    empty or holds a NUL / space byte (no spelling the object parser takes), nor with a null VALUE (7.3.7: such an entry
+    is the same as an absent one, and the object parser drops it) -/
+def Recipe.textual (r : Recipe) : Bool :=
+  (otherKeys r.keys).all fun (k, v) =>
+    !k.isEmpty && k.all (fun b => (48 ≤ b && b ≤ 57) || (65 ≤ b && b ≤ 90) || (97 ≤ b && b ≤ 122)) && !(v matches .null)
 
 /-- how the recipe's shape spells /Filter and /DecodeParms -/
 def Recipe.filterEntries (r : Recipe) (parms : List Obj) : Dict :=
@@ -749,6 +804,10 @@ def judgePlain (case impl : String) : String :=
         let (content, factOk, parms, dists) := r.build
         let extras := r.extrasL content.length
         if showDict (r.dictL parms content.length) != ds || hexOfBytes content != hex then "bad-case recipe and data differ" else
+        -- what must survive is the case's dictionary minus exactly the two filter entries (ISO 32000-1 Table 5)
+        if extras.any (fun kv => kv.1 == strBytes "Filter" || kv.1 == strBytes "DecodeParms")
+           || (parseDict ds).map (fun d => showDict (specPrune d)) != some (showDict (extras.foldl (fun d (k, v) => insertKey k v d) []))
+        then "bad-case surviving entries are not the dictionary minus /Filter and /DecodeParms" else
         if !factOk then "bad-case invalid factorisation" else
         let want := r.wanted
         let okLine := s!"ok {hexOfBytes want} {showDict (extras.foldl (fun d (k, v) => insertKey k v d) [])}"
@@ -1001,6 +1060,27 @@ def gen (seed n : Nat) (tier : String) (emit0 : String → IO Unit) : IO Unit :=
     r := r1
     let ch := ch.take pos ++ [⟨'U', 0, 0, 0, 0⟩] ++ ch.drop pos
     emit (caseOf "sh" { shape := 3, chain := ch, payload := [1, 2, 3, 4, 5] })
+  -- 2c. OTHER KEYS OF THE STREAM DICTIONARY (`otherKeys`): every near key x every value kind (one entry), all near keys at
+  --     once, the six inline-image abbreviations, /F with /DP - over no filter at all ({no /Filter, empty /Filter array,
+  --     empty parallel arrays}), every single layer kind and chains of two and three, under every accepting spelling of
+  --     /Filter x /DecodeParms (single name without / with a parameter dictionary, array, parallel arrays, scalar
+  --     /DecodeParms, the lenient one-dictionary form), parameter variants null / <<>> / <</Predictor 1>> /
+  --     <</Colors 3 /Columns 5>>; the decoded dictionary must be the original one minus exactly /Filter and /DecodeParms
+  let kchains : List (List Layer) := [[]] ++ chains1 ++ [[kinds[0]!, kinds[2]!], [kinds[1]!, kinds[3]!], [kinds[5]!, kinds[0]!],
+    [kinds[1]!, kinds[0]!, kinds[6]!]]
+  for ks in List.range otherKeysCount do
+    let k := ks % (nearKeys.length + 3)
+    let v := ks / (nearKeys.length + 3)
+    let ch := kchains[(v + k) % kchains.length]?.getD []
+    let sel := (v + 2 * k) % 5
+    let s : Nat := if ch.isEmpty then ([4, 1, 2, 4, 7] : List Nat)[sel]?.getD 4
+      else if ch.length == 1 then ([0, 1, 2, 3, 11] : List Nat)[sel]?.getD 0
+      else ([1, 2, 11, 3, 2] : List Nat)[sel]?.getD 1
+    let ch := ch.map fun l => { l with pv := if s == 1 then 0 else (v + k) % 4 }
+    let (p, r1) := mkPayload r (3 + (v + k) % 9) ks
+    r := r1
+    let rc : Recipe := { shape := s * 3 + ks % 3, chain := ch, eol := ks % 4, payload := p, keys := ks + 1 }
+    if rc.textual then emit (caseOf "sh" rc) else emit0 (caseOf "sh" rc)
   -- 2b. FlateDecode layers with a predictor (the /DecodeParms entries FlateDecode::transform reads): predictors
   --     2, 10..14 x {single-column image in three pixel layouts, rows of several pixels, one row} x the writer's
   --     omission choice {every entry written, every default-valued entry left out, /Columns left out, a random
@@ -1259,7 +1339,10 @@ def gen (seed n : Nat) (tier : String) (emit0 : String → IO Unit) : IO Unit :=
     r := r14
     let ch := if pk == 0 then ch.take pos ++ [⟨'P', mode, sel % 50, pr + 16 * sel, mask⟩] ++ ch.drop pos else ch
     let shape := if ch.length == 1 && sh == 0 then 0 else if sh == 1 && pvs == 0 && pk != 0 then 1 else 2
-    emit (caseOf "rt" { shape := shape * 3 + len % 3, chain := ch, eol := eol, payload := p })
+    -- one recipe in four with other keys in its dictionary (`otherKeys`; chosen by the draws already made)
+    let keys := if (len + sel) % 4 == 1 then 1 + (sel * 31 + len) % otherKeysCount else 0
+    let rc : Recipe := { shape := shape * 3 + len % 3, chain := ch, eol := eol, payload := p, keys := keys }
+    if rc.textual then emit (caseOf "rt" rc) else emit0 (caseOf "rt" rc)
   -- 6. arbitrary bytes under one filter, and single-byte mutations of valid encodings (correspondence only)
   for i in List.range (n / 2) do
     let (len, r1) := r.nat 60
